@@ -111,6 +111,7 @@ Proof.
   intros H. destruct o; simpl; try exact H.
   - pose proof (do_get_wf c k H). destruct (do_get c k) as [c' [v|]]; exact H0.
   - pose proof (do_get_wf c k H). destruct (do_get c k) as [c' [v|]]; exact H0.
+  - pose proof (do_get_wf c k H). destruct (do_get c k) as [c' [v|]]; exact H0.
   - apply do_set_wf, H.
   - destruct (lookup k (items c)) eqn:E; simpl; [|exact H].
     destruct H as (Hc & Hnd & Hlen). repeat split; simpl; [exact Hc | apply remove_key_nodup, Hnd |].
@@ -249,6 +250,8 @@ Proof.
     apply ginv_touch; [apply sorted_gremove, Hs | apply forall_gremove, Hf].
   - destruct (glookup k (gitems g)) as [[v t]|]; simpl; [|exact Hsame].
     apply ginv_touch; [apply sorted_gremove, Hs | apply forall_gremove, Hf].
+  - destruct (glookup k (gitems g)) as [[v t]|]; simpl; [|exact Hsame].
+    apply ginv_touch; [apply sorted_gremove, Hs | apply forall_gremove, Hf].
   - destruct (glookup k (gitems g)) as [[v0 t]|]; simpl.
     + apply ginv_touch; [apply sorted_gremove, Hs | apply forall_gremove, Hf].
     + destruct (Nat.leb (gcap g) (length (gitems g))); simpl.
@@ -336,7 +339,7 @@ Qed.
 
 (* the time stamp of a present key is the index of the last operation that used it *)
 Definition uses (o : op) (k : N) : bool :=
-  match o with Get k' | GetD k' _ | Set_ k' _ => N.eqb k k' | _ => false end.
+  match o with Get k' | GetD k' _ | GetN k' | Set_ k' _ => N.eqb k k' | _ => false end.
 
 (* history most recent first *)
 Fixpoint last_use (hr : list op) (k : N) : option nat :=
@@ -428,6 +431,13 @@ Proof.
       destruct (N.eqb_spec k1 k) as [->|Hne]; [congruence|]. apply H, E1.
   - (* GetD *) simpl. destruct (glookup k (gitems g)) as [[v0 t0]|] eqn:E; simpl gitems.
     + apply (Htouch k v0 (GetD k d)); simpl; try apply N.eqb_refl; auto.
+      * destruct (H k v0 t0 E) as [_ Hs]. exact Hs.
+      * intros k1 x Hne Hx. rewrite glookup_gremove_other in Hx by exact Hne. exact Hx.
+      * apply glookup_gremove_same.
+    + intros k1 v1 t1 E1. simpl last_use. simpl last_stored.
+      destruct (N.eqb_spec k1 k) as [->|Hne]; [congruence|]. apply H, E1.
+  - (* GetN *) simpl. destruct (glookup k (gitems g)) as [[v0 t0]|] eqn:E; simpl gitems.
+    + apply (Htouch k v0 (GetN k)); simpl; try apply N.eqb_refl; auto.
       * destruct (H k v0 t0 E) as [_ Hs]. exact Hs.
       * intros k1 x Hne Hx. rewrite glookup_gremove_other in Hx by exact Hne. exact Hx.
       * apply glookup_gremove_same.
